@@ -187,6 +187,168 @@ def check_arbitrary_int_by_evaluation(rep, g, outs, equality):
     return True
 
 
+def eval_checked(ex, t, env):
+    """`checked_neg/abs/add/sub/mul` of the primitive integers on evaluable operands: (type, value) or (type, None) for None;
+    None if t is not such a call"""
+    if t[0] != 'call':
+        return None
+    m = re.search(r'num::<impl ([iu](8|16|32|64|128|size))>::(checked_neg|checked_abs|checked_add|checked_sub|checked_mul)$', cpath(ex, t))
+    if not m:
+        return None
+    ty, op = m.group(1), m.group(3)
+    args = [ceval(ex, strip_view(ex, a), env)[1] for a in t[2]]
+    w = sym.INT_TYPES[ty]
+    lo, hi = (-(1 << (w - 1)), (1 << (w - 1)) - 1) if ty[0] == 'i' else (0, (1 << w) - 1)
+    r = {'checked_neg': lambda: -args[0], 'checked_abs': lambda: abs(args[0]), 'checked_add': lambda: args[0] + args[1],
+         'checked_sub': lambda: args[0] - args[1], 'checked_mul': lambda: args[0] * args[1]}[op]()
+    return (ty, r if lo <= r <= hi else None)
+
+
+def _draw_domain(ex, F, G, env=None):
+    """finite domain of one draw call G, or None: `u.arbitrary::<T>()` for bool / 8-bit integers, `u.int_in_range::<T>(a..=b)`
+    with constant end points (at most 4096 values)"""
+    c = ex.callees.get(G[1])
+    if c is None or not c.gargs:
+        return None
+    try:
+        ty = F.tys(c.gargs[0])
+    except Exception:
+        return None
+    nm = cname(ex, G)
+    if nm == 'arbitrary' and len(G[2]) == 1:
+        if ty == 'bool':
+            return ty, [False, True]
+        if ty in sym.INT_TYPES and sym.INT_TYPES[ty] <= 8:
+            w = sym.INT_TYPES[ty]
+            lo, hi = (-(1 << (w - 1)), (1 << (w - 1)) - 1) if ty[0] == 'i' else (0, (1 << w) - 1)
+            return ty, list(range(lo, hi + 1))
+        return None
+    if nm == 'int_in_range' and len(G[2]) == 2:
+        r = G[2][1]
+        if r[0] == 'call' and cname(ex, r) == 'new' and 'RangeInclusive' in cpath(ex, r) and len(r[2]) == 2:
+            a, b = r[2]
+            if ty in sym.INT_TYPES:
+                try:
+                    lo, hi = ceval(ex, a, env or {})[1], ceval(ex, b, env or {})[1]
+                except (Unknown, EvalPanic):
+                    return None
+                if lo <= hi and hi - lo < 4096:
+                    return ty, list(range(lo, hi + 1))
+    return None
+
+
+def check_arbitrary_int_multi_draw(rep, g, outs, equality):
+    """generators built from several small draws (a sign and a magnitude, ...): every row is folded for every assignment of
+    the draws it mentions. Decides what the single-draw rule decides; gives up (False) when a draw has no small domain."""
+    import itertools
+    d = g.d
+    ex = g.ex
+    sr = sigma_int_range(d)
+    if d['sanitizers'] or d['custom'] or sr is None or sr[0] > sr[1]:
+        return False
+    rows = [o for o in outs if o.kind in ('return', 'diverge')]
+    produced = set()
+    panic = None
+    total = 0
+    for o in rows:
+        draws = []
+        for cnd, val in o.conds:
+            if cnd[0] == 'discr' and cnd[1][0] == 'call' and cname(ex, cnd[1]) in ('arbitrary', 'int_in_range') and cnd[1] not in draws:
+                if val != 0:
+                    draws = None       # the Err row of a draw: nothing is produced, nothing can panic later
+                    break
+                draws.append(cnd[1])
+        if draws is None:
+            continue
+        # conditions on checked operations of constants decide whether the row exists at all
+        feasible = True
+        for cnd, val in o.conds:
+            if cnd[0] == 'discr' and cnd[1] not in draws:
+                try:
+                    ck = eval_checked(ex, cnd[1], {})
+                except (Unknown, EvalPanic):
+                    ck = None
+                if ck is not None:
+                    want_some = (val == 1) or (isinstance(val, tuple) and val[0] == 'not' and 0 in val[1])
+                    if (ck[1] is not None) != want_some:
+                        feasible = False
+        if not feasible:
+            continue
+
+        # depth-first over the draws in path order: the domain of a later draw may depend on earlier ones
+        def payload(G):
+            return ('field', ('downcast', G, 0, 'Ok'), 0)
+
+        def assignments(k, env):
+            if k == len(draws):
+                yield env
+                return
+            dm = _draw_domain(ex, g.F, draws[k], env)
+            if dm is None:
+                raise Unknown('draw without a small domain')
+            ty_, vs_ = dm
+            for v_ in vs_:
+                e2 = dict(env)
+                e2[payload(draws[k])] = (ty_, v_)
+                yield from assignments(k + 1, e2)
+        try:
+            for env in assignments(0, {}):
+                total += 1
+                if total > 300000:
+                    return False
+                combo = tuple(env[payload(G)][1] for G in draws)
+                try:
+                    ok = True
+                    for cnd, val in o.conds:
+                        if cnd[0] == 'discr':
+                            if cnd[1] in draws:
+                                continue
+                            ck = eval_checked(ex, cnd[1], env)
+                            if ck is None:
+                                return False
+                            is_some = ck[1] is not None
+                            want_some = (val == 1) or (isinstance(val, tuple) and val[0] == 'not' and 0 in val[1])
+                            if is_some != want_some:
+                                ok = False
+                                break
+                            continue
+                        r = ceval(ex, cnd, env)
+                        if bool(r[1]) != truth(val):
+                            ok = False
+                            break
+                    if not ok:
+                        continue
+                    for e in o.events:
+                        if e[0] == 'assert' and len(e) > 4:
+                            r = ceval(ex, e[2], env)
+                            if bool(r[1]) != bool(e[4]):
+                                raise EvalPanic('generated arithmetic check fails: ' + str(e[1])[:80])
+                    if o.kind == 'diverge':
+                        panic = (combo, o.why)
+                    elif is_ok(o.ret) and is_adt(o.ret[4][0]) and len(o.ret[4][0][4]) == 1:
+                        produced.add(ceval(ex, o.ret[4][0][4][0], env)[1])
+                except EvalPanic as e:
+                    panic = (combo, str(e))
+        except Unknown:
+            return False
+    rep.ob('R-ARB-PANIC', panic is None, g, 'no assignment of the draws reaches a panic of arbitrary (all assignments of the small draws folded)',
+           {'draws': list(panic[0]) if panic else None, 'why': panic[1] if panic else None})
+    if equality and panic is None:
+        lo, hi = sr
+        missing = [v for v in range(lo, hi + 1) if v not in produced] if hi - lo < 70000 else None
+        extra = sorted(v for v in produced if not (lo <= v <= hi))
+        if missing is None:
+            rep.ob('R-ARB-INT', None, g, 'valid range too wide to enumerate', {})
+        else:
+            rep.ob('R-ARB-INT', not missing and not extra, g, f'the values produced over all {total} assignments of the draws are exactly the valid range [{lo}, {hi}]',
+                   {'never_produced': missing[:12], 'n_missing': len(missing), 'outside': extra[:6]})
+    elif panic is None:
+        lo, hi = sr
+        extra = sorted(v for v in produced if not (lo <= v <= hi))
+        rep.ob('R-ARB-INT', not extra, g, f'every value produced lies in the valid range [{lo}, {hi}]', {'outside': extra[:6]})
+    return True
+
+
 def check_arbitrary_int(rep, g, equality):
     """R-ARB-INT. equality=True: generator range == valid range (C14); always: no reachable panic (C09)"""
     d = g.d
@@ -212,6 +374,8 @@ def check_arbitrary_int(rep, g, equality):
                {'rows': [(o.kind, show(o.ret)[:80] if o.ret else o.why) for o in outs][:4]})
     fi = find_int_in_range(ex, outs)
     if fi is None and check_arbitrary_int_by_evaluation(rep, g, outs, equality):
+        return
+    if fi is None and has_guard and check_arbitrary_int_multi_draw(rep, g, outs, equality):
         return
     if fi is None:
         if not has_guard and not d['sanitizers']:
@@ -505,6 +669,11 @@ def ceval(ex, t, env):
         return (t[1], v)
     if tag == 'call' and not t[2] and cpath(ex, t).split('::')[-1] in KNOWN_CALLS:
         return KNOWN_CALLS[cpath(ex, t).split('::')[-1]]
+    if tag == 'field' and t[1][0] == 'downcast' and t[1][1][0] == 'call' and t[1][3] == 'Some':
+        r = eval_checked(ex, t[1][1], env)
+        if r is None or r[1] is None:
+            raise Unknown('payload of None / unknown checked op')
+        return r
     if tag == 'cast':
         ty, a = t[2], ceval(ex, t[3], env)
         k = t[1]
